@@ -171,3 +171,46 @@ def escapes_some_sensitive(fx, f, start_block, closer_blocks, assume=()):
         for s in f.succ(b):
             work.append((s, k2))
     return None
+
+
+def some_facts_at(fx, f, block):
+    """Option locals (and tuple components) that hold `Some` on every path from the function entry to `block`
+    (forward must-analysis with the transfer function of escapes_some_sensitive)"""
+    def transfer(b, known):
+        k = set(known)
+        for s in f.blocks[b]["s"]:
+            if s[0] != "a" or s[1][1]:
+                continue
+            d = s[1][0]
+            rv = s[2]
+            k.discard(d)
+            k = {x for x in k if not (isinstance(x, tuple) and x[0] == d)}
+            if rv[0] == "agg" and rv[1].get("k") == "adt" and rv[1].get("v") == "Some":
+                k.add(d)
+            elif rv[0] == "agg" and rv[1].get("k") == "tuple":
+                for i, o in enumerate(rv[2]):
+                    if o[0] in ("c", "m") and not o[1][1] and o[1][0] in k:
+                        k.add((d, i))
+            elif rv[0] == "use" and rv[1][0] in ("c", "m"):
+                src = rv[1][1]
+                if not src[1] and src[0] in k:
+                    k.add(d)
+                elif len(src[1]) == 1 and isinstance(src[1][0], list) and src[1][0][0] == "f" and (src[0], src[1][0][1]) in k:
+                    k.add(d)
+        t = f.blocks[b]["t"]
+        if t[0] == "call" and not t[3][1]:
+            k.discard(t[3][0])
+        return frozenset(k)
+    n = len(f.blocks)
+    IN = [None] * n
+    IN[0] = frozenset()
+    work = [0]
+    while work:
+        b = work.pop()
+        out = transfer(b, IN[b])
+        for s in f.succ(b):
+            new = out if IN[s] is None else (IN[s] & out)
+            if IN[s] is None or new != IN[s]:
+                IN[s] = new
+                work.append(s)
+    return IN[block] or frozenset()
